@@ -102,11 +102,12 @@ def do_copy_action(world, shared, act):
     elif kind == "failing_copy":
         # a copy that user code aborts (the value refuses to be copied): it raises here, in this thread only, and
         # must not disturb the copies other threads have in flight
+        from ..snap import Cancelled
+        bomb = world.build(["bomb", "signal"] if act["i"] % 3 == 0 else ["bomb"], False)
         try:
-            protect_via_deepcopy([1, world.build(["bomb"], False)] if act["i"] % 2 else
-                                 {"k": [world.build(["bomb"], False)]})
-        except ValueError:
-            return {"kind": kind, "raised": "ValueError"}
+            protect_via_deepcopy([1, bomb] if act["i"] % 2 else {"k": [bomb]})
+        except (ValueError, Cancelled) as e:
+            return {"kind": kind, "raised": type(e).__name__}
         return {"kind": kind, "raised": None}
     elif kind == "with_payload":
         src = shared["insts"][act["i"] % len(shared["insts"])]
@@ -126,11 +127,12 @@ def do_copy_action(world, shared, act):
 class C20(HistoryCheck):
     PROP = "C20"
     LEVEL = "fault_enumeration"
-    RUNS = {"quick": 1500, "thorough": 24000}
+    RUNS = {"quick": 3000, "thorough": 40000}
     PROFILE = {"kinds": ALL_KINDS + ["any", "any"], "force_kinds": ["any"], "allow_frozen": False,
                "allow_class_dnc": False, "n_attrs": (2, 5)}
     # values in which a nested protected copy fails and is recovered from, with a module still to come
-    ANY_EXTRA = [["list", [["catchbomb"], ["mod", "os"]]],
+    ANY_EXTRA = [["list", [["catchbomb", "signal"], ["mod", "os"]]],
+                 ["list", [["catchbomb"], ["mod", "os"]]],
                  ["list", [["catchbomb"], ["dict", [["m", ["mod", "sys"]]]]]],
                  ["dict", [["a", ["catchbomb"]], ["b", ["list", [["mod", "math"]]]]]]]
     OPGEN = {"p_bad": 0.15, "p_inplace": 0.3, "any_extra": ANY_EXTRA,
@@ -138,7 +140,7 @@ class C20(HistoryCheck):
                          "deepcopy": 4}}
     N_OPS = {"quick": (5, 14), "thorough": (8, 24)}
     P_PROBE = {"quick": 0.4, "thorough": 0.6}
-    P_THREADS = 0.45
+    P_THREADS = 0.75
     RULE = ("mode seq: every operation of a seeded history of copying operations ends at a quiescent point where "
             "copyreg.dispatch_table is compared with its pre-run snapshot; probed operations are re-executed with an "
             "InjectedFault at every callback invocation index and a line abort at library line events (quick <=24 "
@@ -163,7 +165,7 @@ class C20(HistoryCheck):
         ctx.case["mode"] = mode
         # "exactly the entries it held before the library was used": in one run out of four the application has
         # registered its own way of reducing modules beforehand (the usual recipe to pickle modules by name)
-        pre = ctx.case_in.get("preregistered", False) if ctx.replay else ctx.src.chance(0.25)
+        pre = ctx.case_in.get("preregistered", False) if ctx.replay else ctx.src.chance(0.15)
         ctx.case["preregistered"] = pre
         clean = table_snapshot()
         if pre:
@@ -300,7 +302,7 @@ class C20(HistoryCheck):
                     act["v"] = good_value(src, "any")
                 acts.append(act)
             plans.append(acts)
-        return {"insts": insts, "values": values, "plans": plans, "cold_singleton": src.chance(0.5)}
+        return {"insts": insts, "values": values, "plans": plans, "cold_singleton": src.chance(0.7)}
 
     def _run_threads(self, spec, tc, first, sched):
         saved = patch_locks(sched)
